@@ -76,7 +76,7 @@ def phase_of(repo, fi):
     if last in COMPILE_PHASE_NAMES and fi.cls is not None and fi.qual == fi.cls.qual + '.' + last:
         return 'compile', COMPILE_PHASE_NAMES[last]
     if fi.cls is not None and fi.qual == fi.cls.qual + '.' + last and called_only_from_constructors(repo, fi.cls, last):
-        return 'compile', 'helper called only from __init__ of its class (constructs the object)'
+        return 'compile', 'helper called only from __init__ / the declaration-phase methods (constructs or compiles the object)'
     return 'run', 'run-time module function not listed as declaration / class-creation code'
 
 
@@ -102,7 +102,8 @@ def called_only_from_constructors(repo, ci, name):
     if not d:
         return False
     # a method *value* (self.x = self._name) is a reference that is not a call: stays run-time
-    return d['calls'] > 0 and d['refs'] == d['calls'] and all(c in ('__init__', '__new__') for c in d['callers'])
+    # ... likewise a helper that only the declaration-phase methods (_compile & co) call
+    return d['calls'] > 0 and d['refs'] == d['calls'] and all(c in ('__init__', '__new__') or c in COMPILE_PHASE_NAMES for c in d['callers'])
 
 
 def self_role(repo, fi):
